@@ -510,11 +510,12 @@ fn list_formula_is_empty(
                 };
                 let new_len = std::cmp::max(prefix_items.len(), lt.prefix_items.len());
                 if prefix_items.len() < new_len {
-                    if lt.items.is_never() {
+                    // the positions the accumulated type lacks are taken from its own rest type
+                    if items.is_never() {
                         return Ok(IsEmptyStatus::IsEmpty);
                     }
                     for _i in prefix_items.len()..new_len {
-                        prefix_items.push(lt.items.clone());
+                        prefix_items.push(items.clone());
                     }
                 }
                 for i in 0..lt.prefix_items.len() {
